@@ -46,7 +46,7 @@ import (
 )
 
 type c11case struct {
-	Kind    string `json:"kind"` // chain | f5 | snap | snapbig
+	Kind    string `json:"kind"` // chain | f5 | fsync | snap | snapbig
 	Seed    int64  `json:"seed"`
 	Blocks  int    `json:"blocks,omitempty"`
 	Reorgs  bool   `json:"reorgs,omitempty"`
@@ -135,6 +135,7 @@ type c11chain struct {
 	failed    bool
 	hasPrelim bool
 	nReplays  int
+	truth     *state.IdentityStateDB // identity state to compare a full replay with (default: the observed node's)
 }
 
 func (x *c11chain) fail(sig, detail string) {
@@ -158,6 +159,9 @@ func (x *c11chain) replayAll(hostile bool) string {
 		return "broken"
 	}
 	head := x.n.Chain.Head.Height()
+	if ph := x.n.Chain.PreliminaryHead; ph != nil && ph.Height() > head {
+		head = ph.Height() // provideBlocks serves the fast-synced heights as well (canonical hash by height)
+	}
 	bad := uint64(0)
 	for h := x.gen + 1; h <= head; h++ {
 		hdr0 := x.n.Chain.GetBlockHeaderByHeight(h)
@@ -217,7 +221,11 @@ func (x *c11chain) replayAll(hostile bool) string {
 	}
 	// the replayed state must also have the canonical contents
 	got := identityContents(ids)
-	if want := identityContents(x.n.App.IdentityState); got != want {
+	truth := x.n.App.IdentityState
+	if x.truth != nil {
+		truth = x.truth
+	}
+	if want := identityContents(truth); got != want {
 		x.fail("C11:replay-contents-differ", fmt.Sprintf("head %d: replayed identity state [%s] differs from the node's [%s]", head, got, want))
 	}
 	return fmt.Sprintf("ok %d %s", head, got)
@@ -633,6 +641,144 @@ func c11runF5(c *hx.Ctx, cs c11case) error {
 		}
 		x.replayLine()
 	}
+	return nil
+}
+
+// c11runFsync: reorganisation followed by fast sync over the abandoned heights, through the REAL fastSync applier
+// (preConsuming + applyDeferredBlocks).  c = last common height.
+//
+//	observed node D, own fork: A(c+1) A(c+2)* A(c+3)              (* = kill of a validated identity: diff stored)
+//	canonical (node S)       : B(c+1) b(c+2) B(c+3)* b(c+4) b(c+5) (b = no transactions, empty identity diff)
+//
+// D is reset to c and adopts B(c+1) (fork switch), then fast-syncs c+2..c+5 from what S serves; afterwards everything D
+// serves (heights up to its preliminary head) is replayed from genesis.
+func c11runFsync(c *hx.Ctx, cs c11case) error {
+	defer os.RemoveAll("./testdata")
+	defer os.RemoveAll("./testdata2")
+	x, h, err := c11start(c, cs, false)
+	if err != nil {
+		return err
+	}
+	r := h.R
+	S, err := x.w.StartNode(nil, 0, false)
+	if err != nil {
+		return err
+	}
+	common0 := 2 + r.Intn(3)
+	for b := 1; b <= common0; b++ {
+		blk, err := x.step(h, b, true)
+		if err != nil {
+			x.fail("C11:history-broken", err.Error())
+			return nil
+		}
+		cb, _ := chainfx.CloneBlock(blk)
+		if err := S.Add(cb); err != nil {
+			return fmt.Errorf("follower rejected block: %w", err)
+		}
+	}
+	cH := x.n.Chain.Head.Height()
+	// D's own fork; the kill lands at c+2
+	var victims []int
+	for i := 1; i < len(x.w.Keys); i++ {
+		st := x.n.App.State.GetIdentityState(x.w.Addrs[i])
+		if x.n.App.IdentityState.IsValidated(x.w.Addrs[i]) && (st == state.Verified || st == state.Human) {
+			victims = append(victims, i)
+		}
+	}
+	if len(victims) < 2 {
+		c.Hit("fsync:skipped-no-victims")
+		return nil
+	}
+	r.Shuffle(len(victims), func(i, j int) { victims[i], victims[j] = victims[j], victims[i] })
+	for k := 1; k <= 3; k++ {
+		if k == 2 {
+			if _, err := h.S.Send(x.n, victims[0], &types.Transaction{Type: types.KillTx}); err != nil {
+				return fmt.Errorf("scenario: kill tx refused: %w", err)
+			}
+		}
+		if _, err := x.step(h, 20+k, k != 2 && r.Intn(2) == 0); err != nil {
+			x.fail("C11:history-broken", err.Error())
+			return nil
+		}
+	}
+	if x.n.Chain.GetIdentityDiff(cH + 2).Empty() {
+		return fmt.Errorf("scenario: A(c+2) carries no identity diff")
+	}
+	c.Hit("fsync:abandoned-fork-diff-stored")
+	// the canonical chain on S
+	sS := chainfx.NewSender(x.w)
+	var canon []*types.Block
+	sActual := map[uint64]*state.IdentityStateDiff{}
+	for k := 1; k <= 5; k++ {
+		if k == 3 {
+			if _, err := sS.Send(S, victims[1], &types.Transaction{Type: types.KillTx}); err != nil {
+				return fmt.Errorf("scenario: kill tx refused on S: %w", err)
+			}
+		}
+		chainfx.Advance(20 * time.Second)
+		p, err := S.Propose()
+		if err != nil {
+			return err
+		}
+		d, err := S.Chain.FxC11BlockDiff(p.Block)
+		if err != nil {
+			return err
+		}
+		if err := S.Add(p.Block); err != nil {
+			return err
+		}
+		sActual[p.Block.Height()] = d
+		canon = append(canon, p.Block)
+	}
+	if !sActual[cH+2].Empty() || sActual[cH+3].Empty() {
+		return fmt.Errorf("scenario: canonical chain does not have the intended diffs")
+	}
+	// fork switch of D: reset to the common block + B(c+1)
+	if err := x.reset(cH); err != nil {
+		x.fail("C11:history-broken", "ResetTo: "+err.Error())
+		return nil
+	}
+	cb, _ := chainfx.CloneBlock(canon[0])
+	if err := x.add(cb); err != nil {
+		x.fail("C11:history-broken", err.Error())
+		return nil
+	}
+	// fast sync of c+2..c+5 with what S serves, through the real applier
+	fs := protocol.VerifC11NewFastSync(x.n.Chain, x.n.App, x.n.Cfg)
+	from, err := fs.PreConsuming(x.n.Chain.Head)
+	if err != nil || from != cH+2 {
+		return fmt.Errorf("scenario: preConsuming from=%d err=%v", from, err)
+	}
+	var hdrs []*types.Header
+	var certs []*types.BlockCert
+	var diffs []*state.IdentityStateDiff
+	for hh := from; hh <= cH+5; hh++ {
+		hdr, diff, err := protocol.VerifC11Wire(S.Chain.GetBlockHeaderByHeight(hh), S.Chain.GetIdentityDiff(hh))
+		if err != nil {
+			return err
+		}
+		hdrs, certs, diffs = append(hdrs, hdr), append(certs, nil), append(diffs, diff)
+	}
+	if at, err := fs.Apply(hdrs, certs, diffs); err != nil {
+		x.fail("C11:fast-sync-refused-honest-blocks", fmt.Sprintf("applyDeferredBlocks failed at %d: %v", at, err))
+		return nil
+	}
+	if ph := x.n.Chain.PreliminaryHead; ph == nil || ph.Hash() != S.Chain.Head.Hash() {
+		return fmt.Errorf("scenario: fast sync did not reach the canonical head")
+	}
+	for hh := from; hh <= cH+5; hh++ {
+		x.actual[hh] = sActual[hh]
+		c.Line(fmt.Sprintf("fsync %d %s", hh, diffStrRaw(sActual[hh])), "stored "+diffStr(x.n.Chain.GetIdentityDiff(hh)))
+		if sActual[hh].Empty() && x.abandoned[hh] {
+			c.Hit("fsync:empty-diff-over-abandoned-height")
+		}
+	}
+	x.truth = S.App.IdentityState
+	for hh := cH + 1; hh <= cH+5; hh++ {
+		x.served(hh)
+	}
+	x.nReplays = 1 // no hostile stream here: the canonical contents of the fast-synced heights live on S
+	x.replayLine()
 	return nil
 }
 
@@ -1293,6 +1439,8 @@ func c11run(c *hx.Ctx, cs c11case) error {
 		return c11runChain(c, cs)
 	case "f5":
 		return c11runF5(c, cs)
+	case "fsync":
+		return c11runFsync(c, cs)
 	case "snap", "snapbig":
 		return c11runSnap(c, cs)
 	}
@@ -1314,14 +1462,14 @@ func init() {
 			}
 			return c11run(c, wrap.Replay)
 		}
-		c.Rep.Rule = "f5: scripted reorg (kill of a validated identity at height K, ResetTo(K-1), competing block K without identity change); chain: real histories (8 users + god, all ordinary tx kinds incl. kills/delegations/online switches, ceremonies with shrunk timeline, reorgs of 1-3 blocks in half of them, quiet blocks after half of the reorgs), per block the executed identity diff vs the stored one, full replays of all stored diffs from genesis with fast sync's calls after every block around a reorg / every 16 blocks / at the end, snapshot of the real state at the end; snap: generated states (accounts, identities, contract stores, empty values, deletions, 1-4 versions), clean round trip + corruption stream (single-byte flips sampled [quick] / every offset [thorough], truncation at every tar block, random truncations and byte replacements, chunk drop/duplicate/swap); snapbig: > SnapshotBlockSize nodes (several chunks). distinct = distinct (case, corruption) pairs whose bytes differ from the clean archive + histories"
+		c.Rep.Rule = "fsync: own fork with a stored diff at c+2, fork switch onto canonical B(c+1), fast sync of c+2..c+5 (canonical c+2 has an empty diff) through the real fastSync.preConsuming/applyDeferredBlocks, then replay of everything served; f5: scripted reorg (kill of a validated identity at height K, ResetTo(K-1), competing block K without identity change); chain: real histories (8 users + god, all ordinary tx kinds incl. kills/delegations/online switches, ceremonies with shrunk timeline, reorgs of 1-3 blocks in half of them, quiet blocks after half of the reorgs), per block the executed identity diff vs the stored one, full replays of all stored diffs from genesis with fast sync's calls after every block around a reorg / every 16 blocks / at the end, snapshot of the real state at the end; snap: generated states (accounts, identities, contract stores, empty values, deletions, 1-4 versions), clean round trip + corruption stream (single-byte flips sampled [quick] / every offset [thorough], truncation at every tar block, random truncations and byte replacements, chunk drop/duplicate/swap); snapbig: > SnapshotBlockSize nodes (several chunks). distinct = distinct (case, corruption) pairs whose bytes differ from the clean archive + histories"
 		run := func(cs c11case) error {
 			before := c.Lines
 			if err := c11run(c, cs); err != nil {
 				return fmt.Errorf("%+v: %w", cs, err)
 			}
 			c.Sample(cs)
-			if cs.Kind == "chain" || cs.Kind == "f5" {
+			if cs.Kind == "chain" || cs.Kind == "f5" || cs.Kind == "fsync" {
 				c.Rep.Evaluations++
 				if c.Lines-before > 20 {
 					c.Distinct(fmt.Sprintf("%s|%d", cs.Kind, cs.Seed))
@@ -1331,6 +1479,11 @@ func init() {
 		}
 		for i := 0; i < c.Scale(2, 6); i++ {
 			if err := run(c11case{Kind: "f5", Seed: c.Seed*1000 + int64(i)}); err != nil {
+				return err
+			}
+		}
+		for i := 0; i < c.Scale(4, 40); i++ {
+			if err := run(c11case{Kind: "fsync", Seed: c.Seed*1000 + int64(i)}); err != nil {
 				return err
 			}
 		}
